@@ -77,7 +77,28 @@ impl<'t, 'a> LitGen<'t, 'a> {
     fn stmt(&mut self) -> String {
         self.counter += 1;
         let n = self.counter;
-        match self.t.below(33) {
+        match self.t.below(36) {
+            33 => {
+                // a literal as the `this` argument of a prototype call (it is repeated in the rewritten code)
+                let l = self.plant(Some(None), true, false, "proto-call-literal-this");
+                let m = *self.t.pick(&["concat", "replace", "trim", "substring"]);
+                format!("x = String.prototype.{m}.call({l}, b);")
+            }
+            34 => {
+                let l = self.plant(Some(None), true, false, "proto-apply-literal-this");
+                let l2 = self.plant(Some(None), true, false, "proto-apply-literal-argument");
+                if self.t.flag() {
+                    format!("x = String.prototype.concat.apply({l}, [{l2}, b]);")
+                } else {
+                    format!("x = String.prototype.concat.apply({l}, [b, {l2}]);")
+                }
+            }
+            35 => {
+                // literals inside an optional chain that is unfolded, and as receiver of one
+                let l = self.plant(Some(None), true, false, "opt-chain-argument");
+                let l2 = self.plant(Some(None), true, false, "opt-chain-argument");
+                format!("x = a?.b.concat({l}, b)?.[{l2}];")
+            }
             30 => {
                 // adjacent string literals: a constant sum in leading position / as an argument
                 let l1 = self.plant(Some(None), true, false, "adjacent-literal-sum");
